@@ -45,10 +45,9 @@ MANIFEST = {
                  "simulated POSIX semantics (mutex, condition variable with spurious wake-ups, create/join, virtual clock) is an assumption shared by scheduler and model; scheduling "
                  "points of the implementation run are atomic operations and pthread calls only (plain volatile reads are not separately interleaved in the run, they are in the "
                  "theorems); usize wrap-around outside.  Nothing OPEN: `join_eventually` (every weakly fair run reaches a state where every thread has finished and every call was executed and freed exactly once), `fair_runs_terminate`, `progresses_wf`, `no_stuck`, `terminal_state_is_complete` are proved on the FULL model of the repaired code; the scheduler verdict, the exhaustive model exploration of small configurations and the random model walks are additional tests.  The model mirrors the REPAIRED code "
-                 "(fixes/future/0001-0005, fixes/sync/0001); on the unrepaired tree the check reports the defects with concrete failing schedules."),
+                 "(fixes/future/0001-0005, fixes/sync/0001); on the unrepaired tree the check reports the defects with concrete failing schedules.  Round 3: failing Thread::start: XReach is exact up to the join loop of ~ThreadPool (tail replayed by the driver, OPEN as a theorem); "
+                 "the liveness theorems assume that thread creation succeeds (shown false otherwise); the repair of the _threadCount leak of the failing branch is proposed in docs/future.md, not applied; Call.hpp arities other than Args2: tie only (request `arity`)."),
         "design_ref": "DESIGN.md 3/C10",
-        "round3_note": ("failing Thread::start: XReach is exact up to the join loop of ~ThreadPool (tail replayed by the driver, OPEN as a theorem); the repair of the _threadCount leak is proposed in docs/future.md, "
-                        "not applied (the model of the repaired failure path needs three more program counters = rebuild of the whole proof chain); Call.hpp arities other than Args2: tie only."),
     }
 }
 
@@ -526,7 +525,7 @@ def random_scenario(rng):
                 sc.append(f"{'D' if up else 'd'}{f}")
                 started.discard(f)      # reading the result of a future that was never started is the caller's error
         scripts.append(sc)
-    return Scn(scripts, q=rng.choice([1, 1, 2, 2, 4, 8]), mn=rng.choice([0, 0, 1, 2]), mx=rng.choice([3, 3, 4]),
+    return Scn(scripts, q=rng.choice([1, 1, 2, 2, 4, 8]), mn=rng.choice([0, 0, 1, 2]), mx=rng.choice([2, 3, 3, 4]),      # 2: the constructor raises _maxThreads to 3
                lazy=1 if rng.random() < 0.15 else 0, tick=rng.choice([0, 0, 300, 700, 1100, 2100]), sp=rng.choice([0, 0, 0, 1, 2]),
                ncpu=rng.choice(NCPU_CHOICES), cf=rng.choice([0] * 17 + [1, 2, 5]))
 
